@@ -206,6 +206,9 @@ inductive GenFault where
   | badContribution
   /-- a commit reply is altered (public key or confirmation signature) -/
   | badCommitReply
+  /-- no message fault, but a participant other than the initiator already holds an account of that name (left by an
+      earlier attempt that committed on some participants only): its commit is refused after the others committed -/
+  | heldElsewhere
   deriving DecidableEq, Repr, Inhabited
 
 /-- outcome of a whole generation as seen by the client, and which instances end up holding the
@@ -223,5 +226,6 @@ def generateOutcome (npeers n t : Nat) (walletDistributed accountExists permitte
     | .lost => (false, false)
     | .badContribution => (false, false)
     | .badCommitReply => (false, true)                                  -- detected only after the commits happened
+    | .heldElsewhere => (false, true)                                   -- the other participants had already committed
 
 end Dirk.Dkg
